@@ -184,8 +184,6 @@ def check(case):
   want = ref['result']
   if want[0] == 'ok':
     exp_val = want[1]
-    if kind == 'erase':
-      exp_val = None  # erase() returns nothing
     if got[0] != 'ok':
       r.bad('C16/unexpected-exception/%s' % got[1], 'sequence %r: raised %s(%s), expected return %r' % (case['seq'], got[1], got[2][:60], exp_val))
     elif got[1] != exp_val:
